@@ -321,6 +321,9 @@ func pick(r *hk.Rand, xs []int) int { return xs[r.Intn(len(xs))] }
 
 func subset(r *hk.Rand, xs []int, min int) []int {
 	var out []int
+	if min > len(xs) {
+		min = len(xs)
+	}
 	for _, x := range xs {
 		if r.Bool() {
 			out = append(out, x)
